@@ -1,9 +1,10 @@
 (* C03 — All ranks issue matching collectives and no rank ever stalls.
    Coll: asynchronous issue, blocking wait, per-group FIFO matching.
    Statements only. *)
-From Coq Require Import List Arith Bool.
+From Coq Require Import List Arith Bool Lia.
 Import ListNotations.
-From KV Require Import Model.Coll Proofs.CollP.
+From KV Require Import Model.Placement Model.Kfac Model.KfacComm Proofs.KfacCommP.
+From KV Require Import Model.Coll Proofs.CollP.   (* last: CollP.steps / finished, not the record field Kfac.steps *)
 
 Section C03.
 Variable members : list (list nat).     (* group id -> member ranks *)
@@ -53,6 +54,66 @@ Proof.
 Qed.
 End C03.
 
+
+(* ---- K-FAC programs ARE projections of one global order (kfac_proj of DESIGN.md) ----
+   For every KAISA grid (W = k * p), method, symmetric flag, layer table, bucket capacity (or
+   unbucketed), hook / no-hook, accumulation, constant or callable intervals and every history
+   of the control machine (train / eval passes, steps, checkpoints, loads, scheduler changes,
+   memory queries, the training loop's own world allreduces): what rank r issues — decided
+   with the code's rank-dependent guards — is exactly the sub-sequence of ONE rank-independent
+   order that concerns the groups r belongs to. *)
+Theorem kfac_comm_proj : forall cfg c cap ls h r, wf_grid c -> r < pW c ->
+  kfac_issues cfg c cap ls r h = mine (kmembers c) (kfac_order cfg c cap ls h) r.
+Proof. exact kfac_comm_proj_l. Qed.
+
+(* hence, with the Coll semantics: any programs issuing those collectives (each wait placed
+   anywhere after its issue) never deadlock, can always be run to completion, and every root
+   is a member of its group *)
+Theorem kfac_never_stalls : forall cfg c cap ls h (P : nat -> list act),
+  wf_grid c -> wf_roots c ls ->
+  (forall r, r < pW c -> issues (P r) = kfac_issues cfg c cap ls r h) ->
+  (forall r, r < pW c -> forall pre g k post, P r = pre ++ Wait g k :: post -> k < length (ong g (issues pre))) ->
+  (forall i, In i (kfac_order cfg c cap ls h) -> root_ok (kmembers c) i = true) /\
+  forall s,
+    (~ finished (pW c) P s -> exists r, r < pW c /\ enabledb (kmembers c) P s r = true) /\
+    (exists s', steps (kmembers c) (pW c) P s s' /\ finished (pW c) P s').
+Proof.
+  intros cfg c cap ls h P Hwf Hroots Hiss Hwait.
+  assert (Hmem : forall g r, In r (mem_of (kmembers c) g) -> r < pW c) by (intros g r; apply kmembers_in_world; exact Hwf).
+  assert (Hproj : forall r, r < pW c -> issues (P r) = mine (kmembers c) (kfac_order cfg c cap ls h) r).
+  { intros r Hr. rewrite (Hiss r Hr). now apply kfac_comm_proj_l. }
+  split.
+  - intros i Hi. unfold kfac_order in Hi. exact (crun_roots c cap ls _ Hwf Hroots [] i Hi).
+  - intro s. split.
+    + exact (never_stuck (kmembers c) (pW c) P _ Hmem Hproj Hwait s).
+    + exact (run_to_completion (kmembers c) (pW c) P _ Hmem Hproj Hwait s).
+Qed.
+
+(* non-vacuity: 4 ranks, 2 gradient workers per layer (HYBRID), eigen method, two layers in different columns,
+   bucketed factors; one training iteration (hooks reduce the factors, the loop averages 2 gradients, step());
+   rank 1 takes part in the inverse broadcasts of the second layer only and in the gradient broadcasts of its row *)
+Example kfac_issues_hybrid :
+  let c := {| pW := 4; pk := 2; pmeth := EigenPlain; psym := false; pfsz := 4; pisz := 4 |} in
+  let ls := [ {| na := 2; ng := 3; wa := 0; wg := 2 |}; {| na := 3; ng := 1; wa := 1; wg := 1 |} ] in
+  let cfg := {| c_hook := true; c_acc := 1; c_fus0 := HConst 1; c_ius0 := HConst 1 |} in
+  let h := [HK (Fwd true); HK (Bwd true); HUser [6; 3]; HK Step] in
+  wf_grid c /\ wf_roots c ls /\
+  kfac_issues cfg c (Some 1000) ls 1 h =
+    [ar 6; ar 3; ar 23;
+     bc 2 9 1; bc 2 3 1; bc 2 1 1; bc 2 1 1;
+     bc 3 3 1; bc 3 6 0] /\
+  kfac_issues cfg c (Some 1000) ls 2 h =
+    [ar 6; ar 3; ar 23;
+     bc 1 4 0; bc 1 2 0; bc 1 9 2; bc 1 3 2;
+     bc 4 3 3; bc 4 6 2].
+Proof.
+  cbv zeta. split; [|split; [|split]].
+  - unfold wf_grid, pp; cbn; lia.
+  - intros l [<-|[<-|[]]]; unfold pp; cbn; repeat split; lia.
+  - vm_compute. reflexivity.
+  - vm_compute. reflexivity.
+Qed.
+
 (* per-group matching WITHOUT one global order is not enough: two ranks, two
    groups, crossed waits; every group sees equal sequences on both members, yet
    the state (1, 1) is a deadlock — and the checker rejects the logs *)
@@ -81,3 +142,5 @@ Print Assumptions members_issue_same_sequence.
 Print Assumptions no_foreign_group.
 Print Assumptions no_deadlock.
 Print Assumptions every_execution_completes.
+Print Assumptions kfac_comm_proj.
+Print Assumptions kfac_never_stalls.
